@@ -107,6 +107,8 @@ type Pkt struct {
 	Version   byte   // if != 0 overrides the version nibble
 	Cap       int    // capacity of the buffer (0 = default)
 	Garbage   []byte // initial content of the 10 bytes in front of the packet
+	SrcX      []byte // XORed over the source address (deviation in any address byte)
+	DstX      []byte // XORed over the destination address
 }
 
 func (p *Pkt) l4() []byte {
@@ -147,6 +149,15 @@ func addr6(x byte) []byte {
 	return a
 }
 
+func xorAddr(a, x []byte) []byte {
+	for i := range x {
+		if i < len(a) {
+			a[i] ^= x[i]
+		}
+	}
+	return a
+}
+
 // build returns the IP packet.
 func (p *Pkt) build() []byte {
 	t := p.l4()
@@ -161,7 +172,7 @@ func (p *Pkt) build() []byte {
 		binary.BigEndian.PutUint16(ip[4:], uint16(len(t)+p.LenDelta))
 		ip[6] = p.Proto
 		ip[7] = p.TTL
-		src, dst = addr6(p.Src), addr6(p.Dst)
+		src, dst = xorAddr(addr6(p.Src), p.SrcX), xorAddr(addr6(p.Dst), p.DstX)
 		copy(ip[8:], src)
 		copy(ip[24:], dst)
 	} else {
@@ -174,7 +185,7 @@ func (p *Pkt) build() []byte {
 		binary.BigEndian.PutUint16(ip[6:], p.Frag)
 		ip[8] = p.TTL
 		ip[9] = p.Proto
-		src, dst = addr4(p.Src), addr4(p.Dst)
+		src, dst = xorAddr(addr4(p.Src), p.SrcX), xorAddr(addr4(p.Dst), p.DstX)
 		copy(ip[12:], src)
 		copy(ip[16:], dst)
 		copy(ip[20:], p.IPOpts)
@@ -814,7 +825,31 @@ func (g *gen) randomBatch(i int) Case {
 			flows = append(flows, o)
 		}
 	}
+	twinned := false
+	if r.Intn(8) == 0 && total < 100 && !big {
+		// add the flow-key twin of one of the TCP/UDP flows
+		for _, k := range r.Perm(len(flows)) {
+			f := flows[k]
+			if len(f) == 0 || (f[0].Proto != 6 && f[0].Proto != 17) {
+				continue
+			}
+			ncomp := 4
+			if f[0].Proto == 6 {
+				ncomp = 5
+			}
+			x := byte(1 << uint(r.Intn(8)))
+			if r.Intn(3) == 0 {
+				x = byte(1 + r.Intn(255))
+			}
+			flows = append(flows, twinFlow(f, r.Intn(ncomp), r.Intn(3), r.Intn(14), x))
+			twinned = true
+			break
+		}
+	}
 	kind := fmt.Sprintf("random/off%d/cap%d", off, capMode)
+	if twinned {
+		kind += "/twin"
+	}
 	if big {
 		kind = "random-big"
 	}
@@ -937,6 +972,99 @@ func dedicated() []Case {
 }
 
 // the batches of Test_handleGRO's first table entry, as a fixed regression case
+// Flow-key twins: a second flow whose key differs from the first one's in exactly ONE component
+// (one byte of the source or destination address -- first, a middle or the last byte --, the source
+// port, the destination port, for TCP also the acknowledgement number), everything else equal and
+// the packets lined up so that they would merge if that component dropped out of the key.
+const (
+	twSrcAddr = iota
+	twDstAddr
+	twSport
+	twDport
+	twAck
+)
+
+var twinCompName = []string{"src-addr", "dst-addr", "src-port", "dst-port", "ack"}
+var twinPosName = []string{"first-byte", "middle-byte", "last-byte"}
+
+// keyTwin changes component comp of p's flow key (pos: address byte class, x: non-zero XOR value).
+func keyTwin(p *Pkt, comp, pos, mid int, x byte) *Pkt {
+	q := *p
+	n := 4
+	if p.V6 {
+		n = 16
+	}
+	at := []int{0, 1 + mid%(n-2), n - 1}[pos]
+	switch comp {
+	case twSrcAddr:
+		q.SrcX = make([]byte, n)
+		copy(q.SrcX, p.SrcX)
+		q.SrcX[at] ^= x
+	case twDstAddr:
+		q.DstX = make([]byte, n)
+		copy(q.DstX, p.DstX)
+		q.DstX[at] ^= x
+	case twSport:
+		q.Sport ^= uint16(x) << (8 * uint(pos%2))
+	case twDport:
+		q.Dport ^= uint16(x) << (8 * uint(pos%2))
+	case twAck:
+		q.Ack ^= uint32(x) << (8 * uint(pos))
+	}
+	return &q
+}
+
+// twinFlow returns the twin of a whole flow; a TCP twin continues the sequence numbers of the
+// original (its first segment is adjacent to the original's last one and to earlier ones).
+func twinFlow(f []*Pkt, comp, pos, mid int, x byte) []*Pkt {
+	var out []*Pkt
+	for _, p := range f {
+		q := keyTwin(p, comp, pos, mid, x)
+		q.Payload = append([]byte(nil), p.Payload...)
+		if p.Proto == 6 {
+			q.Seq = p.Seq + uint32(len(p.Payload))
+		}
+		out = append(out, q)
+	}
+	return out
+}
+
+// every class once, on small batches: A1 B1 A2 B2 and A1 A2 B1 B2
+func twinCases() []Case {
+	g := &gen{r: rand.New(rand.NewSource(7))}
+	var cs []Case
+	for _, proto := range []byte{17, 6} {
+		for _, v6 := range []bool{false, true} {
+			ncomp := 4
+			if proto == 6 {
+				ncomp = 5
+			}
+			for comp := 0; comp < ncomp; comp++ {
+				for pos := 0; pos < 3; pos++ {
+					var a []*Pkt
+					for i := 0; i < 2; i++ {
+						if proto == 6 {
+							p := mkTCP(v6, uint32(1+100*i), 0x10, 100)
+							p.Sport, p.Dport = 4000, 443
+							a = append(a, p)
+						} else {
+							a = append(a, &Pkt{V6: v6, Proto: 17, Src: 1, Dst: 2, Sport: 4000, Dport: 123, TTL: 64, Payload: g.payload(100)})
+						}
+					}
+					b := twinFlow(a, comp, pos, 6, 0x01)
+					name := fmt.Sprintf("twin/%s%s/%s/%s", map[byte]string{6: "tcp", 17: "udp"}[proto], map[bool]string{false: "4", true: "6"}[v6], twinCompName[comp], twinPosName[pos])
+					order := []*Pkt{a[0], b[0], a[1], b[1]}
+					if (comp+pos)%2 == 1 {
+						order = []*Pkt{a[0], a[1], b[0], b[1]}
+					}
+					cs = append(cs, g.assemble(name, [][]*Pkt{order}, 16, true, 0))
+				}
+			}
+		}
+	}
+	return cs
+}
+
 func fixedCases() []Case {
 	g := &gen{r: rand.New(rand.NewSource(5))}
 	t4 := func(dst byte, seq uint32) *Pkt { p := mkTCP(false, seq, 0x10, 100); p.Dst = dst; return p }
@@ -1221,6 +1349,7 @@ func main() {
 			cases = append(cases, c)
 		}
 		cases = append(cases, fixedCases()...)
+		cases = append(cases, twinCases()...)
 		cases = append(cases, fixedWriteSeq()...)
 		g := &gen{r: rand.New(rand.NewSource(*seed))}
 		for i := 0; i < *n; i++ {
